@@ -253,7 +253,7 @@ fn run_clone(ctx: &mut Ctx, cell: u32) {
         p.capture = false;
         s.log.clear();
     });
-    let opts = CloneOpts {
+    let mut opts = CloneOpts {
         http,
         force_create: flag == "force-create",
         seed_output: flag == "seed-output",
@@ -262,6 +262,17 @@ fn run_clone(ctx: &mut Ctx, cell: u32) {
         verify_output: gen::chance(1, 6) && !blockdev,
         ..Default::default()
     };
+    // a seed does not change which refusal applies. One clone in four has one; where the output
+    // exists as a regular file the seed may be the output itself
+    let seed_kind = if gen::chance(1, 4) { if output_kind == "file" && gen::chance(1, 2) { "output-itself" } else { "file" } } else { "none" };
+    match seed_kind {
+        "file" => {
+            scen::put_file("seed0.bin", &gen::gen_seed_data(&m.source, m.spec.cfg.expected_avg()).1);
+            opts.seeds.push("seed0.bin".into());
+        }
+        "output-itself" => opts.seeds.push(out_name.to_string()),
+        _ => {}
+    }
     scen::set_stdin(None);
     scen::draw_schedule();
     let creator = if racing { Some(spawn_creator("out.bin")) } else { None };
@@ -280,7 +291,7 @@ fn run_clone(ctx: &mut Ctx, cell: u32) {
     });
     let desc = json!({
         "command": "clone", "transport": if http { "http" } else { "local" }, "archive": archive_kind, "flag": flag, "output": output_kind,
-        "prior_len": prior.as_ref().map(|p| p.len()), "source_len": src_len, "creator_won": creator_won, "verify_header": verify_header.is_some(), "archive_options": m.desc,
+        "prior_len": prior.as_ref().map(|p| p.len()), "source_len": src_len, "creator_won": creator_won, "seed": seed_kind, "verify_header": verify_header.is_some(), "archive_options": m.desc,
     });
     if ctx.want_sample {
         ctx.verdict.sample = Some(desc.clone());
